@@ -274,11 +274,20 @@ func (c *Ctx) Finish(level string) int {
 		fmt.Printf("KNOWN-FINDING: property=%s key=%s (%d cases) %s\n", c.ID, k, c.known[k], text)
 		kf[k] = c.known[k]
 	}
-	if c.InfraErr != nil {
+	if c.InfraErr != nil && c.violations == 0 {
 		fmt.Fprintf(os.Stderr, "INFRASTRUCTURE ERROR (not a verdict): %v\n", c.InfraErr)
 		return 2
 	}
 	cov := map[string]any{}
+	if c.InfraErr != nil {
+		// Every VIOLATION line printed so far was decided by the verdict rule on a real
+		// artefact (observation, rejection by the specification, guard). A later
+		// infrastructure problem (typically: the defect makes a batch of programs hang
+		// until the runner's time limit) leaves the exploration incomplete but does not
+		// take those verdicts back.
+		fmt.Fprintf(os.Stderr, "INFRASTRUCTURE ERROR after %d violation(s) were decided (exploration incomplete, the verdicts stand): %v\n", c.violations, c.InfraErr)
+		cov["incomplete_infrastructure_error"] = c.InfraErr.Error()
+	}
 	for k, v := range c.Cov {
 		cov[k] = v
 	}
